@@ -100,7 +100,7 @@ def run_case(case: dict) -> dict:
                 if op["api"]:
                     lnode.nmt.state = NAMES[op["state"]]
                 else:
-                    net.notify(0, bytearray([CMD[op["state"]], op.get("target", nid)]), 0.0)
+                    net.notify(0, bytearray([CMD[op["state"]], nid if op.get("target") is None else op["target"]]), 0.0)
                 log({"e": o, "state": op["state"], "api": bool(op["api"])})
             elif o == "ng_start":
                 rnode.nmt.start_node_guarding(op["period_us"] / 1e6)
